@@ -25,6 +25,23 @@ func tmatch(filter, name string) bool {
 	return len(f) == len(n)
 }
 
+// validFilterStr: MQTT 3.1.1 §4.7.1 — wildcards occupy a whole level, '#' only as the last level, no NUL, not empty
+func validFilterStr(f string) bool {
+	if f == "" || strings.Contains(f, "\x00") {
+		return false
+	}
+	ls := strings.Split(f, "/")
+	for i, l := range ls {
+		if strings.Contains(l, "#") && (l != "#" || i != len(ls)-1) {
+			return false
+		}
+		if strings.Contains(l, "+") && l != "+" {
+			return false
+		}
+	}
+	return true
+}
+
 // ---- bookkeeping the monitors need: subscriptions per *session* as acknowledged by the broker
 
 type sessView struct {
@@ -510,6 +527,20 @@ func (w *World) monDelivery(h []ev) {
 			if p.Message.QOS <= orig.qos {
 				capOK = true
 			}
+			// a session that ever held a filter outside §4.7.1 is outside the property's domain for "exactly the matching
+			// subscribers" (the trie treats such filters in its own way); C14 only demands that nothing breaks
+			invalidHeld := false
+			for f := range everSub[k] {
+				if !validFilterStr(f) {
+					invalidHeld = true
+				}
+			}
+			if strings.ContainsAny(p.Message.Topic, "+#\x00") || p.Message.Topic == "" {
+				invalidHeld = true
+			}
+			if invalidHeld {
+				matched = true
+			}
 			if !matched {
 				w.hit("delivery-without-subscription", fmt.Sprintf("connection %d (%s) received %s but never subscribed to a matching filter", e.conn, k, e.txt))
 			}
@@ -543,7 +574,7 @@ func (w *World) monDelivery(h []ev) {
 					}
 				}
 			}
-			if len(allowed) > 0 && !allowed[p.Message.QOS] && !p.Dup {
+			if len(allowed) > 0 && !allowed[p.Message.QOS] && !p.Dup && !invalidHeld {
 				w.hit("delivery-qos-not-capped", fmt.Sprintf("connection %d (%s) received %s: published QoS %d, matching grants allow %v", e.conn, k, e.txt, orig.qos, allowed))
 			}
 			if !capOK {
